@@ -429,6 +429,36 @@ fn run_payloads(src: &str) -> String {
     format!("epay={}", pay.join(","))
 }
 
+/// Mode `srcerrs`: the syntax diagnostics as the SOURCE-FILE layer (`oq3_source_file::parse_source_string`) hands
+/// them out: `len=<bytes>;errs=<start>-<end>,...` (C12: ranges refer to the text the caller supplied).
+fn run_srcerrs(src: &str) -> String {
+    use oq3_source_file::SourceTrait as _;
+    let parsed = oq3_source_file::parse_source_string(src, None, None::<&[PathBuf]>);
+    let errs: Vec<String> = match parsed.syntax_ast() {
+        Some(ast) => ast
+            .errors()
+            .iter()
+            .map(|e| {
+                let r = e.range();
+                format!("{}-{}", u32::from(r.start()), u32::from(r.end()))
+            })
+            .collect(),
+        None => vec![],
+    };
+    format!("len={};errs={}", src.len(), errs.join(","))
+}
+
+pub fn srcerrs_line(line: &str) -> String {
+    let src = match decode_src(line) {
+        Some(s) => s,
+        None => return "bad-case".into(),
+    };
+    match catch_unwind(AssertUnwindSafe(|| run_srcerrs(&src))) {
+        Ok(s) => s,
+        Err(_) => format!("PANIC {}", last_panic().replace(['\n', '\r'], " ")),
+    }
+}
+
 pub fn payload_line(line: &str) -> String {
     let src = match decode_src(line) {
         Some(s) => s,
